@@ -27,8 +27,8 @@ pub struct GList<T: Ord> {
 //@end
 
 /// usage hypotheses on the element type of a GList
-pub open spec fn glist_ok<T: Ord>() -> bool {
-    node_ok::<T>() && actor_ok::<Identifier<T>>()
+pub open spec fn glist_ok<T: Ord + Clone>() -> bool {
+    node_ok::<T>() && actor_ok::<Identifier<T>>() && crate::identifier::between_ok::<T>()
 }
 
 impl<T: Ord> GList<T> {
